@@ -57,6 +57,7 @@ type WSEnd struct {
 	wdlExpired   bool
 	flushWaiters int
 	ctlDlWaiters int // control writes with a deadline that are currently waiting
+	pingsSeen    int
 }
 
 type wsWriteDeadlineEv struct{ e *WSEnd }
@@ -178,6 +179,7 @@ func (g *G) wsNextReader(e *WSEnd) Value {
 		e.inbox = e.inbox[1:]
 		switch m.typ {
 		case websocket.PingMessage:
+			e.pingsSeen++
 			if e.pingH != nil {
 				res, _ := g.callFn(e.pingH, []Value{S("")}, g.top, token.NoPos).(Iface)
 				if res.T != nil {
@@ -761,6 +763,7 @@ func init() {
 		}
 		return nil
 	})
+	PC("Pings", func(g *G, e *WSEnd, a []Value) Value { return I64(int64(e.pingsSeen)) })
 	PC("Sent", func(g *G, e *WSEnd, a []Value) Value { return I64(int64(e.peer.sent)) })
 }
 
